@@ -25,6 +25,9 @@ type CaseGraph struct {
 	// Prior (C01 only): inputs of earlier runs on the same compiled runnable; each is judged like the main
 	// run (a run must not depend on what earlier runs - failed ones included - left behind)
 	Prior []any `json:"prior,omitempty"`
+	// PreMax (C01 only): the graph object is first compiled with WithMaxRunSteps(PreMax) and that runnable dropped;
+	// the runnable under test comes from a second Compile of the same object with the options of the spec
+	PreMax int `json:"premax,omitempty"`
 }
 
 func genC01(t *rapid.T) CaseGraph {
@@ -47,12 +50,22 @@ func genC01(t *rapid.T) CaseGraph {
 	if mode == "pregel" && rapid.IntRange(0, 5).Draw(t, "callMax") == 0 {
 		c.CallMax = rapid.IntRange(1, len(c.Spec.Nodes)+4).Draw(t, "callMaxV")
 	}
+	if mode == "pregel" && rapid.IntRange(0, 5).Draw(t, "preCompile") == 0 {
+		c.PreMax = rapid.IntRange(1, 60).Draw(t, "preMax")
+	}
 	if rapid.IntRange(0, 2).Draw(t, "withPrior") == 0 {
 		for i := rapid.IntRange(1, 3).Draw(t, "nPrior"); i > 0; i-- {
 			c.Prior = append(c.Prior, gkit.GenInput(t, c.Spec.In))
 		}
 	}
 	return c
+}
+
+func (c CaseGraph) buildOpts() *gkit.BuildOpts {
+	if c.PreMax <= 0 {
+		return nil
+	}
+	return &gkit.BuildOpts{PreCompile: []compose.GraphCompileOption{compose.WithMaxRunSteps(c.PreMax)}}
 }
 
 // classifyErr maps a run error to the failure classes of the reference model.
@@ -127,7 +140,7 @@ func checkC01(c CaseGraph) (*vkit.Failure, vkit.Meta) {
 	priorFailed := false
 	if len(c.Prior) > 0 && c.Spec != nil {
 		var err error
-		r, err = gkit.Compile(context.Background(), c.Spec, nil)
+		r, err = gkit.Compile(context.Background(), c.Spec, c.buildOpts())
 		if err != nil {
 			return vkit.Failf("compile-rejected-wellformed-graph", "Compile failed on a well-typed generated graph: %v", err), vkit.Meta{}
 		}
@@ -153,6 +166,9 @@ func checkC01(c CaseGraph) (*vkit.Failure, vkit.Meta) {
 	}
 	if priorFailed {
 		m.Labels = append(m.Labels, "earlier-run-on-same-runnable-failed")
+	}
+	if c.PreMax > 0 {
+		m.Labels = append(m.Labels, "compiled-before-with-another-step-limit")
 	}
 	if edgeBesideBranch(c.Spec) {
 		m.Labels = append(m.Labels, "edge-beside-branch-to-same-successor")
@@ -211,7 +227,7 @@ func checkRef(c CaseGraph, r *gkit.Runner) (*vkit.Failure, vkit.Meta, *gkit.RefR
 		ctx := context.Background()
 		if r == nil {
 			var err error
-			r, err = gkit.Compile(ctx, c.Spec, nil)
+			r, err = gkit.Compile(ctx, c.Spec, c.buildOpts())
 			if err != nil {
 				return vkit.Failf("compile-rejected-wellformed-graph", "Compile failed on a well-typed generated graph: %v", err)
 			}
